@@ -96,7 +96,16 @@ fn gen_batch(rng: &mut Rng, sp: i64, next_id: &mut i64, metric: &str) -> Vec<Row
 
 async fn scenario(ctx: &Ctx, out: &mut Outcome, rng: &mut Rng, idx: u64) {
     let store = Arc::new(InMemory::new());
-    let local = Arc::new(LocalMetadataClient::new());
+    // either catalog backend
+    let object_store_backend = rng.chance(1, 2);
+    let local: Arc<dyn MetadataClient> = if object_store_backend {
+        Arc::new(cardinalsin::metadata::ObjectStoreMetadataClient::new(store.clone(), cardinalsin::metadata::ObjectStoreMetadataConfig::default()))
+    } else {
+        Arc::new(LocalMetadataClient::new())
+    };
+    if object_store_backend {
+        out.count("scenarios_on_the_object_store_catalog", 1);
+    }
     let ctl = Ctl::new(); // only used as the event log of the recording decorator
     let rec: Arc<dyn MetadataClient> = RecMeta::new(local.clone(), ctl.clone(), "ing");
     let ing = Ingester::new(crate::checks::c03::no_wal_ingester_config(), store.clone(), rec, storage_config(), MetricSchema::default_metrics());
@@ -120,6 +129,14 @@ async fn scenario(ctx: &Ctx, out: &mut Outcome, rng: &mut Rng, idx: u64) {
     let phase = if rng.chance(1, 2) { SplitPhase::DualWrite } else { SplitPhase::Backfill };
     let _ = local.start_split(&shard_id, vec![a.clone(), b.clone()], sp.to_be_bytes().to_vec()).await;
     let _ = local.update_split_progress(&shard_id, 0.3, phase).await;
+    // every other scenario: another shard is splitting at the same time (one background split per hot shard is
+    // a legal state); its new shards hold nothing here
+    if rng.chance(1, 2) {
+        let other = format!("shard-other-{}", idx);
+        let _ = local.start_split(&other, vec![format!("new-x-{}", idx), format!("new-y-{}", idx)], sp.to_be_bytes().to_vec()).await;
+        let _ = local.update_split_progress(&other, 0.5, if rng.chance(1, 2) { SplitPhase::DualWrite } else { SplitPhase::Backfill }).await;
+        out.count("scenarios_with_a_second_split_in_progress", 1);
+    }
     // ---- writes during the split
     let nb = 1 + rng.usize(3);
     for bi in 0..nb {
